@@ -281,6 +281,19 @@ def run_check(prop: str, module, tier: str, seed: int, src: Sources | None = Non
         traceback.print_exc(file=sys.stdout)
         print(f"ANALYSIS-ERROR property={prop} internal error: {type(e).__name__}: {e}")
         return 2
+    selftest_failed = 0
+    if tier == "thorough":
+        # firing direction: the in-memory mutant catalogue of this property must still be detected
+        from . import mutants
+        res = mutants.collect([prop])
+        counts = {}
+        for mid, _p, status, info in res:
+            counts[status] = counts.get(status, 0) + 1
+            ctx.log(f"  mutant {mid:30s} {status:14s} {info[:110]}")
+            if status in ("MISSED", "broken", "analysis-error"):
+                selftest_failed += 1
+        ctx.extra["selftest_mutants"] = {"total": len(res), **counts,
+                                         "caught_ids": [m for m, _p, st, _i in res if st.startswith("caught")]}
     known = known_keys_for(prop)
     viol, kn = [], []
     seen = set()
@@ -308,4 +321,10 @@ def run_check(prop: str, module, tier: str, seed: int, src: Sources | None = Non
     write_evidence(ctx, meta, wall, len(viol), len(kn))
     print(f"{prop} [{tier}] obligations={ctx.obligations} discharged={ctx.discharged} "
           f"known={len(kn)} violations={len(viol)} wall={wall:.2f}s")
-    return 1 if viol else 0
+    if viol:
+        return 1
+    if selftest_failed:
+        print(f"ANALYSIS-ERROR property={prop} self-test: {selftest_failed} mutant(s) of the catalogue are no longer "
+              "detected (the checker lost detection power; this is not a violation of the property)")
+        return 2
+    return 0
